@@ -13,28 +13,47 @@ pub fn run(n: usize, rng: &mut Rng, out: &mut Out) {
         out.stats.count(if ans.starts_with("ok") { "ok" } else if ans.starts_with("missing") { "missing" } else { "cyclic" });
         out.emit(&req, &ans, rules.iter().map(|r| r.cons.len()).sum::<usize>() >= 2);
     }
-    // histories on ONE real ruler (with its compiled-order cache) vs the cache-free model
-    for _ in 0..n / 4 {
+    // histories on ONE real ruler (with its compiled-order cache) vs the cache-free model:
+    // constraint-rich rule sets, then use / remove / use again with no add in between
+    for _ in 0..n / 3 {
         let mut r: Ruler<usize, usize> = Ruler::new();
-        let mut ops = vec![];
+        let mut ops: Vec<String> = vec![];
         let mut res = vec![];
-        let mut any = false;
-        let k = rng.range(2, 14);
-        for _ in 0..k {
-            let m = rng.below(6);
-            match rng.below(12) {
-                0..=3 => { r.add(m, m); any = true; ops.push(format!("add{}", m)); if rng.chance(1, 2) { let t = rng.below(7); let it = r.add(m + 10, m + 10); match rng.below(5) { 0 => { it.before(t); ops.push(format!("add{};bef{}", m + 10, t)); } 1 => { it.after(t); ops.push(format!("add{};aft{}", m + 10, t)); } 2 => { it.alias(t + 20); ops.push(format!("add{};ali{}", m + 10, t + 20)); } 3 => { it.before_all(); ops.push(format!("add{};ball", m + 10)); } _ => { it.after_all(); ops.push(format!("add{};aall", m + 10)); } } } }
-                4 | 5 => { r.remove(m); ops.push(format!("rem{}", m)); }
-                6 => { res.push((r.contains(m) as u8).to_string()); ops.push(format!("has{}", m)); }
-                _ => {
-                    let got = guarded(|| r.iter().copied().collect::<Vec<usize>>());
-                    res.push(match got { Ok(v) => format!("ok:{}", v.iter().map(|x| x.to_string()).collect::<Vec<_>>().join(",")), Err(e) if e.starts_with("cyclic") => "cyclic".into(), Err(e) if e.starts_with("missing") => { let p: Vec<&str> = e.split(" @ ").next().unwrap().split_whitespace().collect(); format!("missing:{}:{}", p[2], p[4]) } Err(e) => format!("PANIC:{}", e) });
-                    ops.push("iter".into());
+        let nrules = rng.range(2, 7);
+        for m in 0..nrules {
+            let it = r.add(m, m);
+            ops.push(format!("add{}", m));
+            for _ in 0..rng.below(3) {
+                let t = rng.below(nrules);
+                match rng.below(6) {
+                    0 | 1 => { it.before(t); ops.push(format!("bef{}", t)); }
+                    2 | 3 => { it.after(t); ops.push(format!("aft{}", t)); }
+                    4 => { it.require(t); ops.push(format!("req{}", t)); }
+                    _ => { it.alias(20 + t % 2); ops.push(format!("ali{}", 20 + t % 2)); }
                 }
             }
+            match rng.below(8) { 0 => { it.before_all(); ops.push("ball".into()); } 1 => { it.after_all(); ops.push("aall".into()); } _ => {} }
         }
-        let _ = any;
+        let iter = |r: &Ruler<usize, usize>| -> String {
+            match guarded(|| r.iter().copied().collect::<Vec<usize>>()) {
+                Ok(v) => format!("ok:{}", v.iter().map(|x| x.to_string()).collect::<Vec<_>>().join(",")),
+                Err(e) if e.starts_with("cyclic") => "cyclic".into(),
+                Err(e) if e.starts_with("missing") => { let p: Vec<&str> = e.split(" @ ").next().unwrap().split_whitespace().collect(); format!("missing:{}:{}", p[2], p[4]) }
+                Err(e) => format!("PANIC:{}", e),
+            }
+        };
+        let steps = rng.range(2, 6);
+        for _ in 0..steps {
+            match rng.below(7) {
+                0..=2 => { res.push(iter(&r)); ops.push("iter".into()); }
+                3 | 4 => { let m = if rng.chance(1, 5) { 20 + rng.below(2) } else { rng.below(nrules) }; r.remove(m); ops.push(format!("rem{}", m)); res.push(iter(&r)); ops.push("iter".into()); }
+                5 => { let m = rng.below(nrules + 1); res.push((r.contains(m) as u8).to_string()); ops.push(format!("has{}", m)); }
+                _ => { let m = rng.below(nrules); let t = rng.below(nrules); let it = r.add(m + 10, m + 10); it.after(t); ops.push(format!("add{};aft{}", m + 10, t)); }
+            }
+        }
         out.stats.count("histories");
-        out.emit(&format!("ruler hist {}", ops.join(";")), &res.join(";"), ops.iter().any(|o| o.starts_with("rem")) && ops.iter().filter(|o| *o == "iter").count() >= 2);
+        let removes = ops.iter().filter(|o| o.starts_with("rem")).count();
+        if removes > 0 { out.stats.count("histories_with_remove_after_use"); }
+        out.emit(&format!("ruler hist {}", ops.join(";")), &res.join(";"), removes > 0);
     }
 }
